@@ -1049,13 +1049,18 @@ def cq_case(plan: Dict[str, Any], mode: str, stream: bool, h: Dict[str, Any]) ->
 # generation, replay in Coq, judging
 # ----------------------------------------------------------------------------------------------------------------------
 def spec_stale_drop_complete() -> Tuple[Dict[str, Any], Dict[str, float]]:
-    """Witness of C06-mp-stale-drop-complete: two unordered steps on ONE object (S0 fast, S1 > 5 s) and a third step on another
-    object that is still running when the late DROP_COMPLETE arrives."""
+    """Witness of the former finding C06-mp-stale-drop-complete (fixed:10693fe): two unordered steps on ONE object (S0 fast, S1 > 5 s)
+    and a third step on another object that is still running when the late DROP_COMPLETE arrives.
+    The root has ONE column on purpose: the root step uploads its data only when FeatureSet.any_uuid of the root step happens to be
+    the column the other framework reads (ExecutionPlan.add_tfs, need_to_upload); with two root columns that depends on a set order
+    that varies between runs, and when the root step does not upload, the transform step races with S0's upload
+    ("Try to get an empty apache flight": observed once in ~10 runs of the two-column variant) - a different, order-dependent
+    failure inside the known domain C06-unordered-conflicting-steps that would make this run's expected outcome (3 results) flaky."""
     spec = {"groups": [
-        {"name": "R0", "kind": "root", "cfw": "PyArrowTable", "cols": {"a": [1, 2, 3], "b": [4, 5, 6]}},
+        {"name": "R0", "kind": "root", "cfw": "PyArrowTable", "cols": {"a": [1, 2, 3]}},
         {"name": "S0", "kind": "derived", "cfw": "PyArrowTable", "features": {"s0": {"inputs": ["a"], "c0": 0, "coefs": [1]}}},
         {"name": "S1", "kind": "derived", "cfw": "PyArrowTable", "features": {"s1": {"inputs": ["a"], "c0": 1, "coefs": [2]}}},
-        {"name": "T", "kind": "derived", "cfw": "PandasDataFrame", "features": {"t": {"inputs": ["b"], "c0": 2, "coefs": [1]}}}],
+        {"name": "T", "kind": "derived", "cfw": "PandasDataFrame", "features": {"t": {"inputs": ["a"], "c0": 2, "coefs": [1]}}}],
         "request": ["s0", "s1", "t"]}
     return spec, {"S1": 6.0, "T": 9.0}
 
